@@ -355,6 +355,8 @@ def run(ctx):
     C05.r7_batching(ctx)           # buffering is switched off on the way to every first data write, so buffered SYNs cannot be stranded
     from . import C02 as _C02a
     _C02a.r3_allocator(ctx)        # every open takes an id of its own in one atomic step: two openers given the same id mix two tasks' frames on one stream
+    from . import C04 as _C04c
+    _C04c.r3_conservation(ctx)     # every byte of a frame handed to the shaping write path is written: a frame whose tail is dropped is completed, on the wire, by the next tasks' frames
     r1_flush_atomicity(ctx)
     r2_contiguity(ctx)
     r3_open_order(ctx)
